@@ -46,7 +46,8 @@ type stat struct {
 var classes = []string{"dupDefName", "primitiveName", "dupConstName", "dupStructField", "dupMessageField",
 	"dupOptionName", "dupOptionValue", "dupOpCode", "undefStructField", "undefMessageField", "undefUnionBranchField",
 	"undefMapKey", "selfStruct", "chainStruct", "dupMsgIndex", "msgIndexZero", "dupUnionIndex", "enumOutOfRange",
-	"flagsOutOfRange", "constNotAssignable", "constOutOfRange", "okRecursionViaMessage", "okRecursionViaUnion"}
+	"flagsOutOfRange", "constNotAssignable", "constOutOfRange", "okRecursionViaMessage", "okRecursionViaUnion",
+	"selfStructDeprecated", "chainStructDeprecated", "flagsShiftOverflow"}
 
 // realVerdict runs the real pipeline; "accept", "reject-parse", "reject-validate", "reject-generate", "panic".
 func realVerdict(text []byte) (v string, msg string) {
